@@ -35,7 +35,7 @@ func init() {
 		if len(a) >= 1 && a[0] == "world" {
 			c15world(c, a[1:])
 		}
-		if len(a) >= 1 && a[0] == "hist" {
+		if len(a) >= 1 && (a[0] == "hist" || a[0] == "run" || a[0] == "trk") {
 			c15hist(c, a[1:])
 		}
 	}
@@ -103,27 +103,9 @@ func crtName(content string) string {
 
 // crtProjection evaluates the crt-list on disk; with `sim` also the running copy of each file
 func crtProjection(p *world.Pipeline, snis []string, running bool) (string, bool) {
-	cfg, err := world.LoadConfig(p.CfgDir)
-	if err != nil {
-		return "ERR:" + sanitize(err.Error()), false
-	}
-	var list []world.CrtEntry
-	found := false
-	for _, fe := range cfg.Frontends {
-		for _, l := range fe.Lines {
-			if l[0] != "bind" {
-				continue
-			}
-			for i := 1; i+1 < len(l); i++ {
-				if l[i] == "crt-list" && strings.Contains(l[i+1], "_front_bind_crt") {
-					list = world.ReadCrtList(l[i+1])
-					found = true
-				}
-			}
-		}
-	}
-	if !found {
-		return "ERR:no-crt-list", false
+	list, errText := c15diskList(p)
+	if errText != "" {
+		return errText, false
 	}
 	var out []string
 	for _, sni := range snis {
@@ -245,6 +227,7 @@ func c15hist(c *ctx, toks []string) {
 	}
 	defer p.Close()
 	syncs := 0
+	obs := &runObs{}
 	for i, o := range ops {
 		if o != "sync" {
 			evs, err := w.Apply(world.Op{Text: o})
@@ -268,6 +251,10 @@ func c15hist(c *ctx, toks []string) {
 		out, _ := crtProjection(p, snisOf(ops[:i+1]), true)
 		c.emit("C15", "hist "+prefix, out)
 		c.emit("C15", "trk "+prefix, trackProjection(p, ops[:i+1]))
+		// the running side: what the simulated HAProxy serves now (crt-list of the last reload + certificates in memory)
+		secrets := secretsOf(ops[:i+1])
+		obs.observe(p, secrets)
+		c.emit("C15", "run "+prefix, obs.projection(p, snisOf(ops[:i+1]), secrets))
 		c.stat("history_syncs_judged", 1)
 	}
 	c.stat("histories", 1)
@@ -478,6 +465,16 @@ func runC15(c *ctx) {
 			}
 		}
 	}
+	// the running side: one certificate replicated into several Secrets (c15run.go), exhaustive small scope + random
+	c15replAll(c)
+	rr := gen.New(c.seed + 0x15f) // own stream
+	nr := 80
+	if c.thorough() {
+		nr = 1500
+	}
+	for i := 0; i < nr; i++ {
+		c15replRandom(c, rr.Fork())
+	}
 	r := gen.New(c.seed)
 	n, nh, ns := 700, 500, 120
 	if c.thorough() {
@@ -527,6 +524,10 @@ func runC15(c *ctx) {
 }
 
 var c15corpus = []string{
+	// seed C15f, minimised: one certificate replicated into d/tls1 and e/tls1 (equal content, two files), both replaced
+	// with the same new content in ONE batch, nothing else changes: each FILE needs its own `set ssl cert` (a memo keyed
+	// by the certificate hash sends one and leaves the hosts of the other Secret with the old certificate in memory)
+	"hist svc+d/app!http:80:8080!- svc+e/app!http:80:8080!- sec+d/tls1!tls!1000!w.local sec+e/tls1!tls!1000!w.local ing+d/r1@1!haproxy,-!-!a.local>/:Prefix:app:80!a.local>tls1!- ing+e/r2@2!haproxy,-!-!c.local>/:Prefix:app:80!c.local>tls1!- sync sec~d/tls1!tls!1001!w.local sec~e/tls1!tls!1001!w.local sync",
 	// conflicting declarations: the first-created ingress wins, also when it is listed later
 	"world svc+d/app!http:80:8080!- sec+d/tls1!tls!1!a.local sec+e/tls2!tls!1!a.local ing+e/i1@2!haproxy,-!-!a.local>/:Prefix:app:80!a.local>tls2!- ing+d/i2@1!haproxy,-!-!a.local>/:Prefix:app:80!a.local>tls1!-",
 	// missing / malformed / forbidden secret: default certificate
